@@ -1,4 +1,5 @@
 import SfntV.Drive.Parser
+import SfntV.Drive.Header
 
 open SfntV
 
@@ -8,6 +9,7 @@ def dispatch (line : String) : String :=
   | op :: rest =>
     let fs := fields rest
     if op.startsWith "parser." then Drive.Parser.handle op fs
+    else if op.startsWith "header." then Drive.Header.handle op fs
     else "unknown-op"
 
 partial def loop (hin : IO.FS.Stream) (hout : IO.FS.Stream) : IO Unit := do
